@@ -22,17 +22,21 @@ def _eval_shard_ext(args):
     comparison is skipped by the exp-threshold rule) and avoids storing the big term in a .vo."""
     workdir, name, module, terms, timeout = args[:5]
     prelude = args[5] if len(args) > 5 else ""
-    text = "From SV Require Import %s.\n%s\nEval vm_compute in (run_cases_ext [\n%s\n]).\n" % (module, prelude, ";\n".join(terms))
+    text = "From SV Require Import %s.\nSet Printing Width 1000000.\nSet Printing Depth 1000000.\n%s\nEval vm_compute in (run_cases_ext [\n%s\n]).\n" % (module, prelude, ";\n".join(terms))
     rc, out = vlib.coq_eval(name, text, timeout=timeout, workdir=workdir)
     if rc != 0:
         return None, out
-    flat = re.sub(r"\s+", " ", out).replace("%Z", "")
-    m = re.search(r"= \((\d+), \[([^\]]*)\], \[([^\]]*)\], (\d+)\)", flat)
+    # long lists are wrapped by the printer ("( 7, 24)"): normalise before parsing, and never drop an entry silently
+    flat = re.sub(r"\s+", " ", out).replace("%Z", "").replace("%N", "")
+    flat = flat.replace("( ", "(").replace(" )", ")").replace("[ ", "[").replace(" ]", "]")
+    m = re.search(r"= \((\d+), ?\[([^\]]*)\], ?\[([^\]]*)\], ?(\d+)\)", flat)
     if not m:
         return None, out
     total = int(m.group(1))
     mm = [int(x) for x in re.findall(r"-?\d+", m.group(2))]
-    bad = [(int(a), int(b)) for a, b in re.findall(r"\((-?\d+), (-?\d+)\)", m.group(3))]
+    bad = [(int(a), int(b)) for a, b in re.findall(r"\(\s*(-?\d+)\s*,\s*(-?\d+)\s*\)", m.group(3))]
+    if m.group(3).count("(") != len(bad):
+        return None, out
     _skips["n"] += int(m.group(4))
     _skips["shards"] += 1
     return (total, mm, bad), out
@@ -70,7 +74,7 @@ class S(Spec):
         "Coq 8.16.1 kernel, coqc, vm_compute (no native_compute)",
         "Coq.Floats.FloatAxioms (stdlib axioms specifying the primitive binary64 operations w.r.t. SpecFloat): " + ", ".join(sorted(vlib.FLOAT_AXIOMS)),
         "Flocq 4 (IEEE754.PrimFloat bridge, rounding theory) and the classical real-number axioms it uses (sig_forall_dec, sig_not_dec, functional_extensionality_dep, classic)",
-        "hand-written models Filter/KalmanModel.v, Filter/BasicModel.v, Filter/FloatBits.v (fixed<->f64 conversions of the fixed/az crates, f64::clamp/max/signum, Iterator::sum from -0.0): modelled, validated by this run's correspondence",
+        "hand-written models Filter/KalmanModel.v (with the model-only switch c_f24 = impl_f24_fixed between kalman.rs as it is and kalman.rs after the proposed F24 patch; every C13 theorem holds for both values), Filter/BasicModel.v, Filter/FloatBits.v (fixed<->f64 conversions of the fixed/az crates, f64::clamp/max/signum, Iterator::sum from -0.0): modelled, validated by this run's correspondence",
         "libm exp: a parameter of the model; evaluation uses Filter/FloatBits.exp_eval; streams where a wander p-value lies within 1e-9 (relative) of a decision threshold are not compared and are counted (exp_threshold_skips)",
         "harness/src/bin/c13.rs (plant + recording clock driving the public Filter API) and lib/vlib.py",
     ]
@@ -104,7 +108,7 @@ def run(tier, seed, replay=None):
         cov["exp_threshold_skips"] = _skips["n"]
         cov["not_proved"] = [
             "step magnitude >= threshold up to quantisation: checked by the oracle on every implementation trace and by a kernel-evaluated boundary lattice (C13_step_magnitude_grid_partial), not proved in general",
-            "absence of panics is not part of C13: a NaN estimator state (e.g. F24: zero measurement variance, zero delay estimate, one Measurement carrying both raw offsets -> 1/0) makes Duration::from_seconds panic before any command; such streams are generated and must correspond, they are C03 material",
+            "absence of panics is not part of C13: a NaN estimator state (F24: zero measurement-noise estimate absorbed onto a zero prior variance -> 1/0; port-producible, e.g. five 0 ns peer delay measurements) makes Duration::from_seconds panic before any command; such streams are generated here and must correspond; they are JUDGED by C03 (checks/c03_filters.py, Filter/C03Filters.v: finding F24, kf=24, theorem C03f_kalman_patched_no_panic for the patched model)",
         ]
         json.dump(ev, open(path, "w"), indent=1)
     except (OSError, ValueError):
